@@ -138,6 +138,24 @@ def run(out, tier, seed):
             evs.append({"op": "iso", "g": g, "h": v, "og": gi, "oh": gi + 2})
             evs.append({"op": "diff", "g": g, "h": v, "og": gi, "oh": gi + 3})
             evs.append({"op": "canon", "g": g, "h": v, "og": gi})
+        # skolemisation under an authority given by the caller (trailing slash, path, fragment); graphs that share one identifier;
+        # one IsomorphicGraph compared repeatedly while it changes through add / remove / parse / SPARQL Update / another view of its store
+        if gi % 3 == seed % 3 or not quick:
+            for auth in ("http://example.org/", "http://example.org/data/v1", "http://example.org", "http://example.org/x#frag", "https://h.example:8080/a/b/"):
+                evs.append({"op": "skolem", "g": g, "og": gi, "authority": auth})
+            vs = variants(g, rng)
+            for v in vs[:2]:
+                evs.append({"op": "iso", "g": g, "h": v, "og": gi, "oh": gi + 2, "ident": "urn:g:same"})
+            evs.append({"op": "iso", "g": g, "h": g, "og": gi, "oh": gi + 5, "relabel": perm_map(6, rng), "ident": "urn:x-rdflib:default"})
+            T1 = [{"k": "iri", "v": "hs"}, {"k": "iri", "v": "hp"}, {"k": "iri", "v": "ho"}]
+            T2 = [{"k": "iri", "v": "hs"}, {"k": "iri", "v": "hp"}, {"k": "num", "v": 7}]
+            hows = ["parse", "update", "view_add", "add", "iadd"]
+            for hi in range(2):
+                a, b = hows[(gi + hi) % 5], hows[(gi + hi + 2) % 5]
+                rem = ["remove", "update_delete", "view_remove"][(gi + hi) % 3]
+                # g vs g + T1: unequal, then T1 arrives (equal), then T2 arrives and T1 leaves (equal size, unequal), then T2 is swapped for T1 again
+                evs.append({"op": "eq_history", "g": g, "h": g + [T1], "og": gi, "oh": gi + 1, "relabel": perm_map(6, rng),
+                            "steps": [{"how": "none", "t": T1}, {"how": a, "t": T1}, {"how": "none", "t": T1}, {"how": b, "t": T2}, {"how": rem, "t": T1}, {"how": rem, "t": T2}, {"how": a, "t": T1}]})
         for e in evs:
             jobs.append({"cfg": {}, "events": [e]})
     # whether the search takes a wrong short cut depends on labels and insertion order: many relabelled copies of the hard families
